@@ -50,6 +50,18 @@ fire("C13", "ppm-helper-measured-wire-restored",
           '    with qp.allocate(1, state="zero", restored=True) as work_wires:\n        m0 = pauli_measure(pauli0'),
      "R-C13-burn", "_cnot_lattice_surgery_ppm")
 
+fire("C13", "ppm-helper-ancilla-in-any-state",
+     (CO, '    with qp.allocate(1, state="zero", restored=False) as work_wires:\n        m0 = pauli_measure(pauli0',
+          '    with qp.allocate(1, state="any", restored=False) as work_wires:\n        m0 = pauli_measure(pauli0'),
+     "R-C13-burn", "_cy_lattice_surgery_ppm")
+fire("C13", "hadamard-ppm-ancilla-in-any-state",
+     (NP, '    with qp.allocate(1, state="zero", restored=False) as work_wires:\n        qp.Z(wires)',
+          '    with qp.allocate(1, state="any", restored=False) as work_wires:\n        qp.Z(wires)'),
+     "R-C13-burn", "_hadamard_ppm")
+fire("C13", "hadamard-ppm-declares-garbage",
+     (NP, '@qp.register_resources(_hadamard_ppm_resources, work_wires={"burnable": 1})', '@qp.register_resources(_hadamard_ppm_resources, work_wires={"garbage": 1})'),
+     "R-C13-burn", "_hadamard_ppm")
+
 # ------------------------------------------------------------------------------------------ controls
 silent("C13", "outcome-renamed",
        [(NP, '        m0 = pauli_measure("YY", [wires[0], work_wires[0]])\n        m1 = pauli_measure("X", work_wires)\n        qp.cond(m0 == m1, qp.Y)(wires)\n        qp.cond(m0 == m1, qp.GlobalPhase)(np.pi / 2)',
@@ -62,3 +74,6 @@ silent("C13", "iterative-qpe-outcome-through-alias",
        [(IQ, "            measurements[iters - i - 1] = m\n", "            outcome = m\n            measurements[iters - i - 1] = outcome\n")])
 silent("C13", "correction-with-keyword-wires",
        [(CO, "        qp.cond(m1, pauli0)(wires[0])\n", "        qp.cond(m1, pauli0)(wires=wires[0])\n")])
+silent("C13", "allocate-state-as-enum",
+       [(NP, '    with qp.allocate(1, state="zero", restored=False) as work_wires:\n        qp.Z(wires)',
+             '    with qp.allocate(1, qp.allocation.AllocateState.ZERO, restored=False) as work_wires:\n        qp.Z(wires)')])
